@@ -10,6 +10,7 @@ from ..absint import CTX
 from ..absval import Raised
 from ..core import AnalysisError, own_nodes, norm
 from .. import roles
+from . import C05
 
 LEVEL_TEXT = ("static analysis: (D1) center_all interpreted on a symbolic table (two autosomes, X, PAR-X, Y, a null-coverage bin) with an opaque "
               "estimator: every bin is shifted by one and the same term, minus the estimator applied -- per chromosome first, then across "
@@ -27,12 +28,14 @@ CNA = "cnvlib.cnary.CopyNumArray"
 
 
 def table(style, par, with_low, unsorted=False):
-    """exact table: chromosomes 1, 2, X (non-PAR), X (PAR), Y (+ a null-coverage bin on chromosome 1); `unsorted`: the second bin of
+    """exact table: chromosomes 1, 2, X (non-PAR), X (PAR), Y (non-PAR and PAR), mitochondrion, an unplaced contig (+ a null-coverage bin
+    on chromosome 1); `unsorted`: the second bin of
     chromosome 1 comes after chromosome 2 (e.g. targets and antitargets concatenated without re-sorting)"""
     pref = "chr" if style else ""
     rows, names = [], []
     spec = [("a1", pref + "1", 5_000_000), ("a1b", pref + "1", 6_000_000), ("a2", pref + "2", 5_000_000), ("x", pref + "X", 50_000_000),
-            ("parx", pref + "X", 100_000), ("y", pref + "Y", 20_000_000)]
+            ("parx", pref + "X", 100_000), ("y", pref + "Y", 20_000_000), ("pary", pref + "Y", 100_000), ("mito", pref + "M" if style else "MT", 1000),
+            ("unplaced", (pref + "Un_gl000220") if style else "GL000220.1", 1000)]
     if with_low:
         spec.insert(2, ("low", pref + "1", 7_000_000))
     if unsorted:
@@ -241,6 +244,7 @@ def run(chk):
     d1(chk, prog)
     d2(chk, prog)
     d3(chk, prog)
+    C05.d2(chk, prog)            # expect_flat_log2 table (shared with C05-D2)
     d4(chk, prog)
 
 
